@@ -115,7 +115,8 @@ def _apply(target, op, slice_state, shared=None, other=None):
         if k == 's':
             lo, _, hi = rest.partition(':')
             r = target[_bound(lo):_bound(hi)]
-            return 'slice ' + slice_state(r)
+            # a slice of a list is a NEW list, also when it covers everything (`args[:]` is the copy idiom)
+            return 'slice ' + slice_state(r) + (' ALIASES-THE-LIST' if r is target else '')
         if k == 't':
             return 'string ' + enc(str(target))
         if k == 'x':
